@@ -57,7 +57,9 @@ def main():
     out.append("it - r5c12-1 did not even build under the hook wrapper of that time, which is why the wrapper now offers")
     out.append("std's inherent methods, hook commit `15f5dd0`; rounds 6 to 9, ids `r6...` to `r9...`: the version that met them; all rows under *now*, and the tables")
     out.append("of B.2 and B.3, were measured once more in one go with the checks as committed at `0e96565`; the four rows of")
-    out.append("round 11 (C16 only) one commit later, `8fb0bb7`, which added only the lane r11c16b-1 needs);")
+    out.append("round 11 (C16 only) one commit later, `8fb0bb7`, which added only the lane r11c16b-1 needs - that lane was corrected once more afterwards")
+    out.append("(DESIGN.md 7, *a false alarm of my own making*), and every row whose detection depends on C16, all of B.3 and")
+    out.append("the silent C16 rows of B.2 were measured again for C16 against the corrected check: same outcomes);")
     out.append("*now* = the checks as they stand. Round 2 and 3 sub-agents were also told which ideas the earlier rounds")
     rows = table(f"{V}/seeded/RESULTS.tsv")
     n_missed = sum(1 for r in rows if r["name"] in first and "caught" not in first[r["name"]]["verdict"] and r["name"] != "r10c14-1")
